@@ -137,7 +137,8 @@ def _case(draw, tier):
         hist.append(['redefine', 'Hot', 'v1', True])
         return {'history': hist, 'final': q, 'late_defined': False, 'chain': True}
     final = draw(st.one_of(queries(d), focused_query(), focused_query()))
-    n = draw(st.integers(0, 12 if tier == 'quick' else 25))
+    # never an empty history (the reference run is the empty one); lengths spread evenly instead of Hypothesis' small-size bias
+    n = draw(st.sampled_from([1, 2, 3, 4, 6, 8, 10, 12] + ([16, 20, 25] if tier != 'quick' else [])))
     hist = []
     for _ in range(n):
         k = draw(st.integers(0, 9))
